@@ -30,6 +30,88 @@ fn push_result(r: &IndicatorResult, out: &mut Vec<i128>) {
 	out.push(r.signals_length() as i128);
 }
 
+/// C07: `indicator <Name> soak <nset> (<key> <value>)* <seed> <P> <base> <steps> <W> <nsamples> <t..>` (see soak.rs)
+fn soak<C>(t: &mut Toks, sets: &[(String, String)]) -> Vec<i128>
+where
+	C: IndicatorConfig + Default + 'static,
+	C::Instance: Clone + 'static,
+{
+	use crate::soak::{chk_step, plan, Gen};
+	let pl = plan(t);
+	let mut cfg = C::default();
+	for (k, v) in sets {
+		if cfg.set(k, v.clone()).is_err() {
+			return vec![T_ERR];
+		}
+	}
+	let mut g = Gen::new(pl.seed, pl.p, pl.base);
+	let x0 = g.x as ValueType;
+	let c0 = Candle { open: x0, high: x0, low: x0, close: x0, volume: 1.0 };
+	let mut inst = match catch(|| cfg.clone().init(&c0)) {
+		None => return vec![T_PANIC],
+		Some(Err(_)) => return vec![T_ERR],
+		Some(Ok(i)) => i,
+	};
+	let enc = |r: &IndicatorResult, out: &mut Vec<i128>| {
+		out.push(r.values().len() as i128);
+		out.extend(r.values().iter().map(|x| fbits(*x as f64)));
+		out.push(r.signals().len() as i128);
+		out.extend(r.signals().iter().map(|a| enc_action(*a)));
+	};
+	let mut out = vec![0];
+	let mut block2 = Vec::new();
+	let (mut ci, mut co) = (0.0f64, 0.0f64);
+	let mut ring: std::collections::VecDeque<Candle> = std::collections::VecDeque::with_capacity(pl.w + 1);
+	let mut si = 0usize;
+	for n in 1..=pl.steps {
+		let c = g.next_candle();
+		if ring.len() == pl.w {
+			ring.pop_front();
+		}
+		ring.push_back(c);
+		let r = match catch(|| inst.next(&c)) {
+			Some(r) => r,
+			None => {
+				out.push(T_PANIC);
+				return out;
+			}
+		};
+		ci = chk_step(ci, c.close as f64);
+		for v in r.values() {
+			co = chk_step(co, *v as f64);
+		}
+		if si < pl.samples.len() && pl.samples[si] == n {
+			si += 1;
+			out.push(n as i128);
+			out.push(fbits(c.close as f64));
+			enc(&r, &mut out);
+			block2.push(n as i128);
+			block2.push(ring.len() as i128);
+			for k in ring.iter() {
+				crate::method::enc_candle(k, &mut block2);
+			}
+			let fresh = catch(|| {
+				let mut f = cfg.clone().init(&ring[0]).unwrap();
+				let mut last = None;
+				for k in ring.iter().skip(1) {
+					last = Some(f.next(k));
+				}
+				last
+			});
+			match fresh {
+				Some(Some(fr)) => enc(&fr, &mut block2),
+				Some(None) => block2.push(T_NONE),
+				None => block2.push(T_PANIC),
+			}
+		}
+	}
+	out.push(fbits(ci));
+	out.push(fbits(co));
+	out.push(-77);
+	out.extend(block2);
+	out
+}
+
 fn drive<C>(t: &mut Toks, variant: &str) -> Vec<i128>
 where
 	C: IndicatorConfig + Default + Serialize + DeserializeOwned + 'static,
@@ -40,6 +122,9 @@ where
 	let sets: Vec<(String, String)> = (0..nset)
 		.map(|_| (t.next_str().replace("\\s", " ").replace("\\e", ""), t.next_str().replace("\\s", " ").replace("\\e", "")))
 		.collect();
+	if variant == "soak" {
+		return soak::<C>(t, &sets);
+	}
 	let c0 = next_candle(t);
 	let cs = next_candles(t);
 	let mut cfg = C::default();
